@@ -14,8 +14,9 @@ def run(ctx):
         "violation). K7: target_sequence is the circular interval [s1,s3) of the module's own record. K14: one step "
         "appends only the consumed module's fragment. With C01 the product differs only in that module's fragment."
     )
-    records = collect_walk_effects(ctx)
-    ctx.guard(read_set_rule, ctx, "C19.read-set", records)
+    records = ctx.guard(collect_walk_effects, ctx)
+    if records is not None:
+        ctx.guard(read_set_rule, ctx, "C19.read-set", records)
     run_kernels(ctx, ["K7", "K14", "K15", "K0", "K10"], "C19")
     # a swap succeeds only if typing the replacement does not depend on what was typed before
     from ..rules_ast import persistent_state_rule
